@@ -25,7 +25,9 @@ from __future__ import annotations
 
 import hashlib
 import json
+import grp
 import os
+import pwd
 import random
 import shutil
 import stat
@@ -34,6 +36,7 @@ import sys
 import threading
 import time
 import typing as T
+import zlib
 from concurrent.futures import ProcessPoolExecutor
 from pathlib import Path
 
@@ -43,17 +46,20 @@ from .common import Check, MachineryError, SPECS, run_tlc, scratch
 PROP = 'C11'
 NINJA_STUB = str(common.VERIF / 'tools' / 'ninja-stub')
 CMD_TIMEOUT = 600
-T0 = 1_600_000_000          # mtime of every generated source
-T1 = T0 + 5000              # mtime of an edited source
+T0 = 1_600_000_000          # mtime of every generated source (abstract time 0; abstract times are seconds after T0)
+DT = 5000                   # an edited / touched source is this much newer, an aged installed file this much older
+TCLIP = 1_000_000           # times further away from T0 ("now") are reported as this
 
 MC_CFG = '''SPECIFICATION Spec
 CONSTANTS MaxPlan = %d
  CatalogName = "%s"
  OptsName = "%s"
+ TimesName = "%s"
 INVARIANT Confined
 INVARIANT Exact
 INVARIANT DryRunNoop
 INVARIANT Idempotent
+INVARIANT OnlyChangedByTime
 INVARIANT LogNamesCreated
 INVARIANT UninstallRemovesExactlyLog
 INVARIANT OrderIndependent
@@ -73,7 +79,10 @@ DIR_OPTS = ('bindir', 'sbindir', 'libdir', 'includedir', 'localedir', 'datadir',
 def item(id_: str, kind: str, sub: str, dir_: T.Dict[str, T.Any], src: T.List[str], **kw: T.Any) -> T.Dict[str, T.Any]:
     it: T.Dict[str, T.Any] = {'id': id_, 'kind': kind, 'sub': sub, 'dir': dir_, 'src': src, 'rename': [], 'pp': False,
                               'hsub': [], 'stem': '', 'locale': '', 'sect': '', 'strip': False, 'exf': [], 'exd': [],
-                              'st': [], 'mode': -1, 'tag': '', 'ext': '', 'to': '', 'fl': ''}
+                              'st': [], 'mode': -1, 'own': -1, 'grp': -1, 'tag': '', 'ext': '', 'to': '', 'fl': '',
+                              # rendering only (not read by the specification): how ids are written ('num' | 'name'), and
+                              # whether a data rule is written as configure_file(install: true)
+                              'idn': 'num', 'cf': False}
     for k, v in kw.items():
         if k not in it:
             raise MachineryError('unknown item field ' + k)
@@ -82,13 +91,13 @@ def item(id_: str, kind: str, sub: str, dir_: T.Dict[str, T.Any], src: T.List[st
 
 
 def ent(p: T.List[str], t: str, m: int, c: str) -> T.Dict[str, T.Any]:
-    return {'p': p, 't': t, 'm': m, 'c': c, 'l': '', 'r': ''}
+    return {'p': p, 't': t, 'm': m, 'c': c, 'l': '', 'r': '', 'mt': 0}
 
 
 def lnk(p: T.List[str], l: str, r: str, m: int, c: str) -> T.Dict[str, T.Any]:
     """A source that is a symbolic link with text l; it resolves to a file of mode m / content c (r = 'file': a source of
     the project, 'fixed': a file planted outside DESTDIR below the virtual root) or dangles (r = 'none')."""
-    return {'p': p, 't': 'link', 'm': m, 'c': c, 'l': l, 'r': r}
+    return {'p': p, 't': 'link', 'm': m, 'c': c, 'l': l, 'r': r, 'mt': 0}
 
 
 def rel(*p: str) -> T.Dict[str, T.Any]:
@@ -103,7 +112,56 @@ NONE_DIR = {'k': 'none', 'p': []}
 
 
 def symbolic(mode: int) -> str:
+    """rwxr-xr-x notation, special bits as s/S (user, group triplet) and t/T."""
     return stat.filemode(stat.S_IFREG | mode)[1:]
+
+
+ROOT = os.geteuid() == 0
+# ids a rule may declare: as root any id can be given away (some have a name in the user / group database, 4242 has
+# none and can only be written as a number); otherwise only the ids the process has anyway (chown to them is allowed and
+# still makes the kernel clear the set-id bits)
+OWNER_IDS = [0, 1, 2, 65534, 4242] if ROOT else [os.geteuid()]
+GROUP_IDS = [0, 1, 2, 65534, 4242] if ROOT else [os.getegid()]
+
+
+# the numeric id 1 is rejected by the pinned interpreter (`True in mode`, and 1 == True): see probe P-numeric-id-one and the
+# known finding; everywhere else the id 1 is written by name
+NUMERIC_ONE_OK = False
+
+
+def real_id(n: int, group: bool) -> int:
+    """Abstract id of the model -> id usable by this process."""
+    if n < 0 or ROOT:
+        return n
+    return os.getegid() if group else os.geteuid()
+
+
+def id_text(n: int, group: bool, byname: bool, force_num: bool = False) -> str:
+    if n < 0:
+        return 'false'
+    if byname or (n == 1 and not NUMERIC_ONE_OK and not force_num):
+        try:
+            return mq(grp.getgrgid(n).gr_name if group else pwd.getpwuid(n).pw_name)
+        except KeyError:
+            pass
+    return str(n)
+
+
+def mode_text(it: T.Dict[str, T.Any]) -> T.Optional[str]:
+    """install_mode as written: 'rwxr-xr-x' | [perms | false, owner | false, group | false] (trailing false may be left out)."""
+    m, u, g = it['mode'], it['own'], it['grp']
+    if m < 0 and u < 0 and g < 0:
+        return None
+    perm = mq(symbolic(m)) if m >= 0 else 'false'
+    odd = zlib.crc32(it['id'].encode()) & 1
+    if u < 0 and g < 0:
+        return perm if odd else '[' + perm + ']'
+    byname = it.get('idn') == 'name'
+    force = it.get('idn') == 'num!'
+    parts = [perm, id_text(u, False, byname, force), id_text(g, True, byname, force)]
+    if odd and parts[-1] == 'false':
+        parts.pop()
+    return '[' + ', '.join(parts) + ']'
 
 
 def mq(s: str) -> str:
@@ -130,10 +188,12 @@ class Ctx:
         self.dc = list(self.dest.parts[1:])
         self.o = dict(case['o'])
         self.o['prefix'] = self.rc + list(case['o']['prefix'])
+        self.o['uid'], self.o['gid'] = os.geteuid(), os.getegid()     # whoever runs `meson install` below
         self.plan = []
         self.outside_files: T.List[T.Tuple[Path, str, int]] = []
         for it in case['plan']:
             it = json.loads(json.dumps(it))
+            it['own'], it['grp'] = real_id(it['own'], False), real_id(it['grp'], True)
             if it['dir']['k'] == 'abs':
                 it['dir']['p'] = self.rc + it['dir']['p']
             for e in it['st']:
@@ -162,12 +222,19 @@ def dir_text(d: T.Dict[str, T.Any]) -> str:
     return ('/' if d['k'] == 'abs' else '') + '/'.join(d['p'])
 
 
-def write_file(p: Path, content: str, mode: int, mtime: int) -> None:
+def write_file(p: Path, content: str, mode: int, mtime: int, owner: T.Optional[T.Tuple[int, int]] = None) -> None:
     p.parent.mkdir(parents=True, exist_ok=True)
     with open(p, 'w', encoding='utf-8', newline='') as f:
         f.write(content)
+    if owner is not None:
+        os.chown(p, *owner)
     os.chmod(p, mode)
     os.utime(p, (mtime, mtime))
+
+
+def built(it: T.Dict[str, T.Any]) -> bool:
+    """The installed file comes from the build directory (custom_target output, configure_file output)."""
+    return it['kind'] == 'target' or bool(it.get('cf'))
 
 
 def make_link(p: Path, text: str) -> None:
@@ -177,25 +244,33 @@ def make_link(p: Path, text: str) -> None:
     os.symlink(text, p)
 
 
-def content_of(it: T.Dict[str, T.Any], e: T.Dict[str, T.Any], touched: bool) -> str:
-    return e['c'] + ('#1' if touched else '')
+def content_of(it: T.Dict[str, T.Any], e: T.Dict[str, T.Any], touched: str) -> str:
+    return e['c'] + ('#1' if touched in ('newer', 'sametime') else '')
 
 
-def write_sources(ctx: Ctx, it: T.Dict[str, T.Any], touched: bool) -> None:
-    """(Re)write the files an install rule copies from; `touched` = edited (new content, newer mtime)."""
-    mt = T1 if touched else T0
+def write_sources(ctx: Ctx, it: T.Dict[str, T.Any], touched: str, in_build: bool = True) -> None:
+    """(Re)write the files an install rule copies from; `touched` = '' (as generated) | 'newer' (edited: new content, newer
+    mtime) | 'sametime' (new content, old mtime) | 'bump' (old content, newer mtime).  What is built
+    (in_build) is written into the build directory once it is configured; before that only the input of a
+    configure_file() exists."""
+    mt = T0 + (DT if touched in ('newer', 'bump') else 0)
     kind = it['kind']
+    # the sources may belong to somebody else (only root can give files away): ownership is not copied
+    own = ctx.case['env'].get('srcown')
+    own = tuple(own) if own and ROOT else None
     if kind in ('emptydir', 'symlink'):
         return
+    if built(it) and in_build:
+        write_file(ctx.projdir(it['sub'], ctx.build) / it['src'][-1], content_of(it, it['st'][0], touched), it['st'][0]['m'], mt, own)
+        return
     if kind == 'target':
-        write_file(ctx.projdir(it['sub'], ctx.build).joinpath(*it['src']), content_of(it, it['st'][0], touched), it['st'][0]['m'], mt)
         return
     base = ctx.projdir(it['sub'], ctx.src).joinpath(*it['src'])
     if kind != 'subdir':
         if it['st'][0]['t'] == 'link':
             make_link(base, it['st'][0]['l'])
         else:
-            write_file(base, content_of(it, it['st'][0], touched), it['st'][0]['m'], mt)
+            write_file(base, content_of(it, it['st'][0], touched), it['st'][0]['m'], mt, own)
         return
     base.mkdir(parents=True, exist_ok=True)
     for e in it['st']:
@@ -205,7 +280,7 @@ def write_sources(ctx: Ctx, it: T.Dict[str, T.Any], touched: bool) -> None:
         elif e['t'] == 'link':
             make_link(p, e['l'])
         else:
-            write_file(p, content_of(it, e, touched), e['m'], mt)
+            write_file(p, content_of(it, e, touched), e['m'], mt, own)
     for e in sorted((x for x in it['st'] if x['t'] == 'dir'), key=lambda x: -len(x['p'])):
         os.chmod(base.joinpath(*e['p']), e['m'])
     os.chmod(base, 0o777 & ~ctx.o['eumask'])
@@ -215,7 +290,10 @@ def statement(it: T.Dict[str, T.Any]) -> str:
     kind = it['kind']
     kw: T.List[str] = []
     d = it['dir']
-    if kind == 'data':
+    if kind == 'data' and it.get('cf'):
+        head = 'configure_file(input: ' + mq('/'.join(it['src']))
+        kw += ['output: ' + mq(it['src'][-1]), 'copy: true', 'install: true']
+    elif kind == 'data':
         head = 'install_data(' + mq('/'.join(it['src']))
         if it['rename']:
             kw.append('rename: ' + mq('/'.join(it['rename'])))
@@ -253,8 +331,9 @@ def statement(it: T.Dict[str, T.Any]) -> str:
         kw.append('install_dir: ' + mq(dir_text(d)))
     if it['fl']:
         kw.append('follow_symlinks: ' + it['fl'])
-    if it['mode'] >= 0:
-        kw.append('install_mode: ' + mq(symbolic(it['mode'])))
+    mt = mode_text(it)
+    if mt is not None:
+        kw.append('install_mode: ' + mt)
     if it['tag']:
         kw.append('install_tag: ' + mq(it['tag']))
     return head + ''.join(', ' + k for k in kw) + ')'
@@ -277,8 +356,7 @@ def render(ctx: Ctx) -> None:
     per[''] = lines
     for it in ctx.plan:
         per[it['sub']].append(statement(it))
-        if it['kind'] != 'target':
-            write_sources(ctx, it, False)
+        write_sources(ctx, it, '', in_build=False)
     for s, ls in per.items():
         d = ctx.projdir(s, ctx.src)
         d.mkdir(parents=True, exist_ok=True)
@@ -298,7 +376,7 @@ def run_cmd(ctx: Ctx, cmd: T.List[str], cwd: Path, env: T.Dict[str, str], umask:
     return p.returncode, out
 
 
-def setup(ctx: Ctx) -> None:
+def setup(ctx: Ctx) -> int:
     o = ctx.o
     backend = ctx.case['env']['backend']
     cmd = [common.PYTHON, str(common.REPO / 'meson.py'), 'setup', '--backend=' + backend, '--prefix', '/' + '/'.join(o['prefix'])]
@@ -308,12 +386,15 @@ def setup(ctx: Ctx) -> None:
         cmd.append('-Dinstall_umask=' + ('preserve' if o['umask'] < 0 else format(o['umask'], '04o')))
     cmd += [str(ctx.build), str(ctx.src)]
     rc, out = run_cmd(ctx, cmd, ctx.w, ctx.env(), 0o022, 'setup')
+    if rc != 0 and ctx.case['env'].get('accept_probe'):
+        return rc                # a probe of what build definitions are accepted: judged, not a generator problem
     if rc != 0:
         raise MachineryError('meson setup failed on a generated project (generator or environment problem):\n' + out[-1500:]
                              + '\n' + '\n'.join(p.read_text() for p in sorted(ctx.src.rglob('meson.build'))))
     for it in ctx.plan:
-        if it['kind'] == 'target':
-            write_sources(ctx, it, False)
+        if built(it):
+            write_sources(ctx, it, '')
+    return 0
 
 
 # ---------------------------------------------------------------------------
@@ -335,16 +416,18 @@ def list_tree(dest: Path) -> T.List[T.Dict[str, T.Any]]:
 
     def visit(p: str, comps: T.List[str]) -> None:
         st = os.lstat(p)
+        ids = {'u': st.st_uid, 'g': st.st_gid, 'mt': 0}
         if stat.S_ISDIR(st.st_mode):
-            out.append({'p': comps, 't': 'dir', 'm': stat.S_IMODE(st.st_mode), 'l': '', 'c': ''})
+            out.append({'p': comps, 't': 'dir', 'm': st.st_mode & 0o7777, 'l': '', 'c': '', **ids})
             for name in sorted(os.listdir(p)):
                 visit(os.path.join(p, name), comps + [name])
         elif stat.S_ISLNK(st.st_mode):
-            out.append({'p': comps, 't': 'link', 'm': 0, 'l': os.readlink(p), 'c': ''})
+            out.append({'p': comps, 't': 'link', 'm': 0, 'l': os.readlink(p), 'c': '', **ids})
         elif stat.S_ISREG(st.st_mode):
-            out.append({'p': comps, 't': 'file', 'm': stat.S_IMODE(st.st_mode), 'l': '', 'c': content_id(p)})
+            ids['mt'] = max(-TCLIP, min(TCLIP, int(st.st_mtime) - T0))
+            out.append({'p': comps, 't': 'file', 'm': st.st_mode & 0o7777, 'l': '', 'c': content_id(p), **ids})
         else:
-            out.append({'p': comps, 't': 'special', 'm': stat.S_IMODE(st.st_mode), 'l': '', 'c': ''})
+            out.append({'p': comps, 't': 'special', 'm': st.st_mode & 0o7777, 'l': '', 'c': '', **ids})
     if os.path.lexists(dest):
         visit(str(dest), [])
     return out
@@ -360,15 +443,15 @@ def list_outside(ctx: Ctx) -> T.List[str]:
             return
         st = os.lstat(p)
         if stat.S_ISDIR(st.st_mode):
-            out.append(f'{relp}|dir|{stat.S_IMODE(st.st_mode):o}')
+            out.append(f'{relp}|dir|{st.st_mode & 0o7777:o}|{st.st_uid}:{st.st_gid}')
             for name in sorted(os.listdir(p)):
                 visit(os.path.join(p, name), relp + '/' + name)
         elif stat.S_ISLNK(st.st_mode):
-            out.append(f'{relp}|link|{os.readlink(p)}')
+            out.append(f'{relp}|link|{os.readlink(p)}|{st.st_uid}:{st.st_gid}')
         elif stat.S_ISREG(st.st_mode):
             with open(p, 'rb') as f:
                 h = hashlib.sha1(f.read()).hexdigest()[:16]
-            out.append(f'{relp}|file|{stat.S_IMODE(st.st_mode):o}|{h}|{st.st_mtime_ns}')
+            out.append(f'{relp}|file|{st.st_mode & 0o7777:o}|{st.st_uid}:{st.st_gid}|{h}|{st.st_mtime_ns}')
         else:
             out.append(f'{relp}|special')
     for name in sorted(os.listdir(ctx.w)):
@@ -400,7 +483,7 @@ def read_log(ctx: Ctx) -> T.List[T.Dict[str, T.Any]]:
     return out
 
 
-INTRO_KINDS = {'data': 'data', 'man': 'man', 'headers': 'header', 'install_subdirs': 'subdir', 'targets': 'target'}
+INTRO_KINDS = {'data': 'data', 'configure': 'data', 'man': 'man', 'headers': 'header', 'install_subdirs': 'subdir', 'targets': 'target'}
 
 
 def read_intro(ctx: Ctx) -> T.List[T.Dict[str, T.Any]]:
@@ -485,7 +568,11 @@ def run_case(case: T.Dict[str, T.Any], keep: T.Optional[Path] = None) -> T.Dict[
         w.mkdir()
         ctx = Ctx(w, case)
         render(ctx)
-        setup(ctx)
+        setuprc = setup(ctx)
+        if setuprc != 0:
+            return {'id': case['id'], 'o': ctx.o, 'plan': ctx.plan, 'setuprc': setuprc, 't0': [], 'out0': [], 'ev': [], 'intro': [],
+                    'checkintro': False, '_cmds': ctx.cmds, '_planted': [],
+                    '_build_files': {str(p.relative_to(ctx.src)): p.read_text(encoding='utf-8') for p in sorted(ctx.src.rglob('meson.build'))}}
         pre = case['env']['pre']
         if pre != 'absent':
             ctx.dest.mkdir(parents=True)
@@ -495,7 +582,7 @@ def run_case(case: T.Dict[str, T.Any], keep: T.Optional[Path] = None) -> T.Dict[
                 q = ctx.dest.joinpath(*(it['dir']['p'] if it['dir']['k'] == 'abs' else ctx.o['prefix'] + it['dir']['p']))
                 q.mkdir(parents=True, exist_ok=True)
                 os.chmod(q, 0o777)
-        trace: T.Dict[str, T.Any] = {'id': case['id'], 'o': ctx.o, 'plan': ctx.plan, 't0': list_tree(ctx.dest),
+        trace: T.Dict[str, T.Any] = {'id': case['id'], 'o': ctx.o, 'plan': ctx.plan, 'setuprc': 0, 't0': list_tree(ctx.dest),
                                      'out0': list_outside(ctx), 'ev': [], 'intro': read_intro(ctx),
                                      'checkintro': True}
         touched: T.Set[str] = set()
@@ -512,10 +599,18 @@ def run_case(case: T.Dict[str, T.Any], keep: T.Optional[Path] = None) -> T.Dict[
                 ev['rc'] = rc
             elif op['op'] == 'touch':
                 ids = [i for i in op['ids'] if i in ctx.by_id and i not in touched and ctx.by_id[i]['st']]
+                how = op.get('how', 'newer')
                 for i in ids:
-                    write_sources(ctx, ctx.by_id[i], True)
+                    write_sources(ctx, ctx.by_id[i], how)
                     touched.add(i)
-                ev['ids'] = ids
+                ev.update({'ids': ids, 'how': how, 'mt': DT})
+            elif op['op'] == 'age':
+                # somebody gives an installed file an old time stamp: --only-changed has to overwrite it
+                files = [e['p'] for e in list_tree(ctx.dest) if e['t'] == 'file']
+                if not files:
+                    continue
+                fp = ctx.dest.joinpath(*files[op['k'] % len(files)])
+                os.utime(fp, (T0 - DT, T0 - DT))
             elif op['op'] == 'plant':
                 tree = list_tree(ctx.dest)
                 target: T.Optional[T.List[str]] = None
@@ -567,7 +662,8 @@ def full_install() -> T.Dict[str, T.Any]:
     return {'op': 'install', 'tags': [], 'skip': [], 'dry': False, 'oc': False}
 
 
-def gen_history(rnd: random.Random, n: int, installs: T.List[T.Dict[str, T.Any]], ids: T.List[str], shadow: bool) -> T.List[T.Dict[str, T.Any]]:
+def gen_history(rnd: random.Random, n: int, installs: T.List[T.Dict[str, T.Any]], ids: T.List[str], shadow: bool,
+                times: bool = True) -> T.List[T.Dict[str, T.Any]]:
     """A seeded walk over the operations; biased so that most histories install something first."""
     hist: T.List[T.Dict[str, T.Any]] = []
     touched = False
@@ -582,15 +678,18 @@ def gen_history(rnd: random.Random, n: int, installs: T.List[T.Dict[str, T.Any]]
         elif r < 0.78:
             op = {'op': 'uninstall'}
         elif r < 0.88 and not touched and ids:
-            op = {'op': 'touch', 'ids': sorted(rnd.sample(ids, rnd.randint(1, len(ids))))}
+            op = {'op': 'touch', 'ids': sorted(rnd.sample(ids, rnd.randint(1, len(ids)))),
+                  'how': rnd.choice(['newer', 'newer', 'sametime', 'bump']) if times else 'newer'}
             touched = True
+        elif r < 0.91 and times and hist:
+            op = {'op': 'age', 'k': rnd.randrange(1000)}
         elif r < 0.96:
             op = {'op': 'plant', 'k': rnd.randrange(1000), 'name': 'zz foreign %d' % k, 'shadow': shadow and rnd.random() < 0.7}
         else:
             op = dict(rnd.choice(installs))
         op.setdefault('op', 'install')
         hist.append(op)
-        if op['op'] == 'touch' and rnd.random() < 0.8:
+        if op['op'] in ('touch', 'age') and rnd.random() < 0.8:
             hist.append({'op': 'install', 'tags': [], 'skip': [], 'dry': False, 'oc': True})
     return hist
 
@@ -620,6 +719,7 @@ def gen_env(rnd: random.Random, plan: T.List[T.Dict[str, T.Any]], rich: bool) ->
             'umask_in_project': rnd.random() < 0.3,
             'quiet': rnd.random() < 0.2,
             'no_rebuild': rnd.random() < 0.5,
+            'srcown': [2, 2] if rich and ROOT and rnd.random() < 0.3 else None,
             'subprojects': []}
 
 
@@ -638,7 +738,7 @@ def model_cases(model: T.Dict[str, T.Any], n: int, hist_len: int, seed: int) -> 
     for k in range(n):
         ids = order[k % len(order)]
         r = random.Random(seed * 1000003 + k * 7919 + 1)
-        plan = [catalog[i] for i in ids]
+        plan = [dict(catalog[i], idn=r.choice(['num', 'name'])) for i in ids]
         o = opts[(k // len(order) + k) % len(opts)]
         hist = adapt_history(plan, gen_history(r, hist_len, installs, [i for i in ids if catalog[i]['st']], False), False)
         env = gen_env(r, plan, False)
@@ -660,6 +760,10 @@ TAGS = ['t1', 't2', 'devel', 'runtime', 'man', 'doc', 'i18n']
 FILE_MODES = [0o644, 0o755, 0o600, 0o640, 0o750, 0o444, 0o664, 0o4755, 0o2755, 0o711]
 SRC_MODES = [0o644, 0o644, 0o755, 0o600, 0o640, 0o750, 0o664, 0o700]
 DIR_MODES = [0o755, 0o700, 0o770, 0o750, 0o1777, 0o775]
+# the special bits: s / S in the user and group triplet, t / T (on a file: accepted and ignored)
+SPECIAL_FILE_MODES = [0o4755, 0o2755, 0o6755, 0o4711, 0o2745, 0o4644, 0o6775, 0o2644, 0o1755, 0o5755, 0o4750, 0o6111, 0o1644]
+SPECIAL_DIR_MODES = [0o1777, 0o4755, 0o1770, 0o5775, 0o1755]
+SGID_DIR_MODES = [0o2775, 0o3777, 0o6755, 0o2750, 0o2700]      # only for directories nothing else is installed below
 SRC_DIR_MODES = [0o755, 0o750, 0o700, 0o775]
 
 
@@ -760,7 +864,9 @@ def add_link_sources(rnd: random.Random, g: 'Gen', o: T.Dict[str, T.Any], plan: 
             srcm = rnd.choice(SRC_MODES)
             a = item(f'l{n}a', kind, sub, d, [real], ext=ext, mode=mode, tag=tag, st=[ent([], 'file', srcm, f'l{n}:f')])
             b = item(f'l{n}b', kind, sub, json.loads(json.dumps(d)), [link], ext='.lnk', tag=tag, fl=fl,
-                     mode=rnd.choice([-1, -1, 0o644, 0o755]), st=[lnk([], real, 'file', srcm, f'l{n}:f')])
+                     mode=rnd.choice([-1, -1, 0o644, 0o755, 0o4755]), st=[lnk([], real, 'file', srcm, f'l{n}:f')])
+            if rnd.random() < 0.4:
+                b['own'], b['grp'], b['idn'] = rnd.choice(OWNER_IDS), rnd.choice([-1] + GROUP_IDS), rnd.choice(['num', 'name'])
             pair = [a, b] if rnd.random() < 0.6 else [b, a]
             pos = rnd.randint(0, len(plan))
             plan[pos:pos] = pair
@@ -774,6 +880,9 @@ def add_link_sources(rnd: random.Random, g: 'Gen', o: T.Dict[str, T.Any], plan: 
                 kw['mode'] = rnd.choice([0o644, 0o755, 0o664])
             if rnd.random() < 0.5:
                 kw['tag'] = rnd.choice(TAGS)
+            if rnd.random() < 0.4:
+                kw['grp'] = rnd.choice(GROUP_IDS)
+                kw['own'] = rnd.choice([-1] + OWNER_IDS)
             plan.insert(rnd.randint(0, len(plan)),
                         item(f'l{n}x', kind, rnd.choice(subs) if subs and rnd.random() < 0.3 else '', g.dirpath(o), [link], ext='.lnk', fl=fl,
                              st=[lnk([], '/outside dir/' + sec, 'fixed', rnd.choice([0o600, 0o640]), 'out:' + sec)], **kw))
@@ -808,9 +917,11 @@ def add_overlapping_emptydirs(rnd: random.Random, plan: T.List[T.Dict[str, T.Any
         if key in taken:
             continue
         taken.add(key)
-        kw: T.Dict[str, T.Any] = {'mode': rnd.choice(DIR_MODES)}
+        kw: T.Dict[str, T.Any] = {'mode': rnd.choice(DIR_MODES + SPECIAL_DIR_MODES)}
         if rnd.random() < 0.4:
             kw['tag'] = rnd.choice(TAGS)
+        if rnd.random() < 0.4:
+            kw['own'], kw['grp'], kw['idn'] = rnd.choice([-1] + OWNER_IDS), rnd.choice(GROUP_IDS), rnd.choice(['num', 'name'])
         it = item(f'e{n}', 'emptydir', rnd.choice(subs) if subs and rnd.random() < 0.25 else '', {'k': c['k'], 'p': list(c['p'])}, [], **kw)
         plan.insert(rnd.randint(0, len(plan)), it)
         if rnd.random() < 0.3:
@@ -833,10 +944,26 @@ def gen_project(seed: int, k: int, hist_len: int) -> T.Dict[str, T.Any]:
     nitems = rnd.randint(3, 9)
     kinds = ['data', 'data', 'header', 'man', 'subdir', 'subdir', 'emptydir', 'symlink', 'target']
 
-    def common_kw(file_like: bool) -> T.Dict[str, T.Any]:
+    def owner_kw(p: float) -> T.Dict[str, T.Any]:
+        """owner and / or group of install_mode (numeric or by name)."""
         kw: T.Dict[str, T.Any] = {}
-        if rnd.random() < 0.45:
+        if rnd.random() < p:
+            which = rnd.choice(['own', 'grp', 'both', 'both'])
+            if which in ('own', 'both'):
+                kw['own'] = rnd.choice(OWNER_IDS)
+            if which in ('grp', 'both'):
+                kw['grp'] = rnd.choice(GROUP_IDS)
+            kw['idn'] = rnd.choice(['num', 'name'])
+        return kw
+
+    def common_kw(file_like: bool, leaf_dir: bool = False) -> T.Dict[str, T.Any]:
+        kw: T.Dict[str, T.Any] = {}
+        r = rnd.random()
+        if r < 0.3:
             kw['mode'] = rnd.choice(FILE_MODES if file_like else DIR_MODES)
+        elif r < 0.55:
+            kw['mode'] = rnd.choice(SPECIAL_FILE_MODES if file_like else SPECIAL_DIR_MODES + (SGID_DIR_MODES if leaf_dir else []))
+        kw.update(owner_kw(0.6 if 'mode' in kw and kw['mode'] & 0o7000 else 0.3))
         if rnd.random() < 0.55:
             kw['tag'] = rnd.choice(TAGS)
         return kw
@@ -856,6 +983,8 @@ def gen_project(seed: int, k: int, hist_len: int) -> T.Dict[str, T.Any]:
                 kw['rename'] = ([rnd.choice(DIRNAMES)] if rnd.random() < 0.4 else []) + [rn]
             elif srcdirs and rnd.random() < 0.6:
                 kw['pp'] = True
+            elif d['k'] != 'none' and rnd.random() < 0.35:
+                kw['cf'] = True                  # configure_file(install: true, install_dir:, install_mode:)
             plan.append(item(iid, 'data', sub, d, srcdirs + [name], ext=ext, st=[ent([], 'file', rnd.choice(SRC_MODES), cid + 'f')], **kw))
         elif kind == 'header':
             name, ext = g.fname('.h')
@@ -912,14 +1041,15 @@ def gen_project(seed: int, k: int, hist_len: int) -> T.Dict[str, T.Any]:
         elif kind == 'emptydir':
             d = g.dirpath(o)
             d['p'] = d['p'] + [g.uniq('empty ')]
-            plan.append(item(iid, 'emptydir', sub, d, [], **common_kw(False)))
+            plan.append(item(iid, 'emptydir', sub, d, [], **common_kw(False, leaf_dir=True)))
         elif kind == 'symlink':
             d = g.dirpath(o)
             if not d['p']:
                 d = rel(*o['datadir'])
             name, ext = g.fname()
             kw = common_kw(True)
-            kw.pop('mode', None)
+            for key in ('mode', 'own', 'grp', 'idn'):      # install_symlink takes no install_mode
+                kw.pop(key, None)
             to = rnd.choice(['../target file', 'plain', '/abs/olute target', '../../ü/x', 'dangling →'])
             plan.append(item(iid, 'symlink', sub, d, [name], to=to, ext=ext, **kw))
         else:
@@ -995,7 +1125,42 @@ def probe_cases() -> T.List[T.Dict[str, T.Any]]:
                   st=[ent(['f'], 'file', 0o600, 's5:0'), lnk(['lnk'], 'f', 'file', 0o600, 's5:0'),
                       lnk(['out.lnk'], '/outside dir/third key', 'fixed', 0o640, 'out:third')]),
              item('s6', 'data', '', dict(NONE_DIR), ['dflt.lnk'], ext='.lnk', st=[lnk([], 'real.dat', 'file', 0o644, 's1:f')])]
+    # the full install_mode (special bits, owner, group; by number and by name) for every kind of rule that takes one
+    modes = [item('m1', 'data', '', rel('libexec'), ['suid tool'], mode=0o4755, own=1, grp=1, st=[ent([], 'file', 0o755, 'm1:f')]),
+             item('m2', 'header', '', dict(NONE_DIR), ['sgid.h'], mode=0o2755, grp=2, idn='name', ext='.h', st=[ent([], 'file', 0o644, 'm2:f')]),
+             item('m3', 'man', 'sp1', dict(NONE_DIR), ['both.7'], stem='both', sect='7', ext='.7', mode=0o6755, own=65534, idn='name',
+                  st=[ent([], 'file', 0o644, 'm3:f')]),
+             item('m4', 'subdir', '', rel('libexec'), ['tree'], mode=0o4750, own=1, grp=2, idn='name', fl='false',
+                  st=[ent(['run'], 'file', 0o755, 'm4:0'), ent(['in'], 'dir', 0o750, ''), ent(['in', 'deep'], 'file', 0o600, 'm4:1'),
+                      lnk(['run.lnk'], 'run', 'file', 0o755, 'm4:0')]),
+             item('m5', 'emptydir', '', rel('var', 'shared spool'), [], mode=0o3775, own=1, grp=2),
+             item('m6', 'emptydir', '', absd('srv', 'owned'), [], own=2, idn='name'),
+             item('m7', 'target', '', rel('lib', 'probe'), ['gen tool.bin'], mode=0o4750, own=0, grp=2, ext='.bin', st=[ent([], 'file', 0o644, 'm7:f')]),
+             item('m8', 'data', '', rel('libexec'), ['configured'], cf=True, mode=0o2755, own=4242, grp=4242, st=[ent([], 'file', 0o644, 'm8:f')]),
+             item('m9', 'data', '', rel('libexec'), ['sticky'], mode=0o1755, grp=1, st=[ent([], 'file', 0o644, 'm9:f')]),
+             item('m10', 'data', '', absd('etc', 'probe'), ['lock'], mode=0o2644, own=1, grp=1, idn='name', st=[ent([], 'file', 0o644, 'm10:f')]),
+             item('m11', 'data', '', rel('libexec'), ['plain suid'], mode=0o4711, st=[ent([], 'file', 0o644, 'm11:f')]),
+             item('m12', 'data', 'sp1', rel('libexec'), ['group only'], grp=65534, idn='name', st=[ent([], 'file', 0o755, 'm12:f')])]
+    modes_nolink = [it for it in json.loads(json.dumps(modes))]
+    modes_nolink[3]['st'] = modes_nolink[3]['st'][:3]
+    modes_nolink[3]['fl'] = ''
+    # ids are numbers - any number: 1 (daemon) written as a number, next to 0 and 2
+    idone = [item('u0', 'data', '', rel('libexec'), ['zero'], mode=0o640, own=0, grp=0, st=[ent([], 'file', 0o644, 'u0:f')]),
+             item('u1', 'data', '', rel('libexec'), ['one'], mode=0o640, own=1, grp=1, idn='num!', st=[ent([], 'file', 0o644, 'u1:f')]),
+             item('u2', 'data', '', rel('libexec'), ['two'], mode=0o640, own=2, grp=2, st=[ent([], 'file', 0o644, 'u2:f')])]
     return [
+        {'id': 'P-numeric-id-one', 'o': o, 'plan': idone, 'env': dict(env, accept_probe=True), 'hist': [inst, {'op': 'uninstall'}]},
+        {'id': 'P-mode-owner', 'o': o27, 'plan': modes, 'env': dict(envn, srcown=[2, 2]),
+         'hist': [dict(inst, dry=True), inst, inst, {'op': 'uninstall'}, dict(inst, tags=['devel', 'man']), inst, {'op': 'uninstall'}]},
+        {'id': 'P-mode-owner-changed', 'o': dict(o, umask=-1), 'plan': modes_nolink, 'env': dict(envn, destmode='env'),
+         'hist': [inst, {'op': 'touch', 'ids': ['m1', 'm4', 'm7', 'm8']}, oc, oc, dict(inst, skip=['sp1']), {'op': 'uninstall'}]},
+        # --only-changed goes by time stamps: new content under the old stamp stays, old content under a newer stamp and
+        # installed files that were given an old stamp are overwritten (and logged)
+        {'id': 'P-only-changed-sametime', 'o': o27, 'plan': allk, 'env': envn,
+         'hist': [inst, {'op': 'touch', 'ids': ['k1', 'k3', 'k4', 'k7'], 'how': 'sametime'}, oc, {'op': 'age', 'k': 1}, oc,
+                  {'op': 'age', 'k': 3}, dict(oc, tags=['t1']), inst, {'op': 'uninstall'}]},
+        {'id': 'P-only-changed-bump', 'o': o, 'plan': allk, 'env': dict(envn, destmode='env'),
+         'hist': [inst, oc, {'op': 'touch', 'ids': ['k2', 'k4', 'k7'], 'how': 'bump'}, dict(oc, dry=True), oc, oc, {'op': 'uninstall'}]},
         {'id': 'P-link-sources', 'o': o27, 'plan': links, 'env': env,
          'hist': [inst, inst, {'op': 'uninstall'}, dict(inst, dry=True), inst, {'op': 'uninstall'}]},
         {'id': 'P-emptydir-overlap', 'o': o27, 'plan': edirs, 'env': dict(env, subprojects=['sp1'], pre='dir', premk=['d5']),
@@ -1016,7 +1181,7 @@ def probe_cases() -> T.List[T.Dict[str, T.Any]]:
 # ---------------------------------------------------------------------------
 # judging
 
-TRACE_KEYS = ('id', 'o', 'plan', 't0', 'out0', 'ev', 'intro', 'checkintro')
+TRACE_KEYS = ('id', 'o', 'plan', 'setuprc', 't0', 'out0', 'ev', 'intro', 'checkintro')
 
 
 def judge(chk: Check, traces: T.List[T.Dict[str, T.Any]], cases: T.Dict[str, T.Dict[str, T.Any]], label: str) -> None:
@@ -1062,6 +1227,12 @@ def item_features(it: T.Dict[str, T.Any]) -> str:
             fs.append(k)
     if it['sub']:
         fs.append('subproject')
+    if it.get('cf'):
+        fs.append('configure_file')
+    if it['mode'] >= 0 and it['mode'] & 0o7000:
+        fs.append('specialbits')
+    if it['own'] >= 0 or it['grp'] >= 0:
+        fs.append('owner')
     if any(e['t'] == 'link' for e in it['st']):
         fs.append('linksrc' + ('=' + it['fl'] if it['fl'] else ''))
     return '+'.join(fs)
@@ -1076,6 +1247,10 @@ def signature(t: T.Dict[str, T.Any], f: T.Dict[str, T.Any]) -> str:
     if clause == 'Confined':
         areas = sorted({('-' if s in f['missing'] else '+') + s.split('|', 1)[0].split('/', 1)[0] for s in f['missing'] + f['extra']})
         return f'{clause}@{op}:' + ','.join(areas)
+    if clause == 'DefinitionAccepted':
+        what = sorted({'install_mode[numeric-id-1]' if it.get('idn') == 'num!' and 1 in (it['own'], it['grp']) else item_features(it)
+                       for it in t['plan']})
+        return f'{clause}@setup:' + ';'.join(what)
     if clause == 'PlanDescribes':
         want = sorted('-' + e['kind'] for e in f['missing'])
         got = sorted('+' + e['kind'] for e in f['extra'])
@@ -1114,7 +1289,7 @@ def signature(t: T.Dict[str, T.Any], f: T.Dict[str, T.Any]) -> str:
         parts.add(f'+{typ(p)}/{cls(p)}')
     for c in f['changed']:
         if isinstance(c, dict) and 'want' in c:
-            what = ''.join(a for a in ('t', 'm', 'l', 'c') if c['want'][a] != c['got'][a])
+            what = ''.join(a for a in ('t', 'm', 'u', 'g', 'l', 'c') if c['want'][a] != c['got'][a])
             parts.add(f'~{c["want"]["t"]}.{what}/{cls(c["p"])}')
             if tuple(c['p']) in owners:
                 feats.add(item_features(by_id[owners[tuple(c['p'])]]))
@@ -1162,7 +1337,7 @@ def run_batch(chk: Check, ex: ProcessPoolExecutor, cases: T.List[T.Dict[str, T.A
 
 def main(chk: Check) -> None:
     quick = chk.tier == 'quick'
-    mc_runs = [(2, 'small', 'two')] if quick else [(2, 'full', 'four'), (3, 'small', 'two')]
+    mc_runs = [(2, 'small', 'two', 'one')] if quick else [(2, 'full', 'four', 'one'), (2, 'small', 'four', 'all'), (3, 'small', 'two', 'one')]
     n_a = 36 if quick else 360
     n_b = 36 if quick else 420
     scale = float(os.environ.get('VERIF_C11_SCALE', '1'))     # development knob: fewer/more histories, same everything else
@@ -1178,8 +1353,8 @@ def main(chk: Check) -> None:
     # the input space of the model(s) is exported first (same module and constants, no exploration) so that the
     # replay through the real commands can run while TLC explores
     model: T.Dict[str, T.Any] = {'catalog': {}, 'plans': set(), 'opts': {}, 'args': {}}
-    for mp, cat, on in mc_runs:
-        cfg = (MC_CFG % (mp, cat, on)).replace('SPECIFICATION Spec', 'INIT Init\nNEXT NoNext')
+    for mp, cat, on, tn in mc_runs:
+        cfg = (MC_CFG % (mp, cat, on, tn)).replace('SPECIFICATION Spec', 'INIT Init\nNEXT NoNext')
         res = run_tlc(SPECS / 'install', 'Install_MC', cfg_text=cfg, collect=['install_model.json'], timeout=1200,
                       allow_violation=False, workers=2)
         m = json.loads(res.collected['install_model.json'])
@@ -1194,14 +1369,14 @@ def main(chk: Check) -> None:
              'opts': list(model['opts'].values()), 'args': list(model['args'].values())}
     chk.extra['model'] = {'catalog_rules': len(model['catalog']), 'plans': len(model['plans']),
                           'option_sets': len(model['opts']), 'install_argument_sets': len(model['args']),
-                          'runs': [f'MaxPlan={mp},catalog={cat},opts={on}' for mp, cat, on in mc_runs]}
+                          'runs': [f'MaxPlan={mp},catalog={cat},opts={on},times={tn}' for mp, cat, on, tn in mc_runs]}
     results: T.Dict[str, T.Any] = {}
 
     def mc() -> None:
         try:
             out = []
-            for mp, cat, on in mc_runs:
-                out.append(((mp, cat, on), run_tlc(SPECS / 'install', 'Install_MC', cfg_text=MC_CFG % (mp, cat, on),
+            for mp, cat, on, tn in mc_runs:
+                out.append(((mp, cat, on, tn), run_tlc(SPECS / 'install', 'Install_MC', cfg_text=MC_CFG % (mp, cat, on, tn),
                                                    timeout=5400, allow_violation=False, workers=max(2, common.NCPU // 3))))
             results['mc'] = out
         except BaseException as e:  # noqa: BLE001
@@ -1218,13 +1393,22 @@ def main(chk: Check) -> None:
         th.join()
     if 'err' in results:
         raise results['err']
-    for (mp, cat, on), res in results['mc']:
-        chk.add_tlc(f'Install_MC[MaxPlan={mp},catalog={cat},opts={on}]', res)
+    for (mp, cat, on, tn), res in results['mc']:
+        chk.add_tlc(f'Install_MC[MaxPlan={mp},catalog={cat},opts={on},times={tn}]', res)
     chk.exhaustive = False
     chk.extra['histories'] = {'A_model_plans': n_a, 'B_random_projects': n_b}
     chk.assumptions += [
-        'run as root: ownership parts of install_mode (chown) are not exercised, only permission bits; root ignores '
-        'permission denials, so directories without owner write/search permission are not generated',
+        ('run as root: install_mode owners / groups are 0, 1, 2, 65534 (by number or by name) and 4242 (no name); root ignores '
+         'permission denials, so directories without owner write/search permission are not generated'
+         if ROOT else
+         'not run as root: the only owner / group a rule declares are the ids of the process itself (chown to them is allowed '
+         'and still clears the set-id bits of a file); giving files away and EPERM handling are not exercised'),
+        'names of owners / groups that do not exist ("ignoring..." message) and numeric ids written as strings are not generated',
+        'nothing else is installed below an install_emptydir whose declared mode has the set-group-ID bit (entries made in such '
+        'a directory inherit its group, so the outcome would depend on the undocumented order of the rules); sources carry no '
+        'special bits; DESTDIR is not below a set-group-ID directory',
+        'configure_file(install: true) is exercised in copy mode with one input (the installed file is its output in the build '
+        'directory, re-stamped by the harness after setup so that --only-changed compares known time stamps)',
         'the target system root is virtualised: the prefix and absolute install dirs live below <work>/r so that a destination '
         'that is not re-rooted lands in the watched sentinel area instead of the real /usr or /etc',
         '"outside" = everything below the work directory (source dir, build dir except meson-logs/install-log.txt, HOME, cwd, '
@@ -1233,11 +1417,12 @@ def main(chk: Check) -> None:
         'documentation does not order the rules',
         'symbolic links as sources only to regular files (a sibling installed next to the link, or a file planted outside DESTDIR); '
         'plans that copy links as links are installed without --only-changed; no links to directories; no install scripts, no strip/rpath editing, no built targets '
-        'other than one custom_target output written by the harness (there is no ninja); no sticky bit on files',
+        'other than one custom_target output written by the harness (there is no ninja)',
         'untagged rules are not placed below libdir with suffixes other than .a/.pc/.so/.dll together with installed-tests/systemtap '
         'path components (the documented tag guesses would overlap)',
         'install_headers is not given both install_dir and subdir; install_data not both rename and preserve_path',
-        '--only-changed: the harness gives an edited source new content and a newer mtime, so "not older" coincides with "same content"',
+        '--only-changed: time stamps are whole seconds set by the harness (sources: T0, changed ones T0+5000 or - new content - '
+        'still T0; an installed file aged by the harness: T0-5000); the time an installed file gets is observed, not judged',
         'names ending in a blank are only generated as final components of renamed data files and of files inside '
         'install_subdir trees (meson itself rejects source names ending in a space); names containing a newline only in a fixed probe',
     ]
